@@ -112,7 +112,8 @@ def run_case(case):
     layers = gen.random_layer_graph(rng, nmax=4, nmin=1, p_hook=0.75)
     spec = gen.nested_world(rng, prefix, layers=layers, nmods=(1, 4),
                             depth=(0, 3), levels=(None, None, 1, 2, 3),
-                            kinds=KINDS, tests_per_class=(1, 4))
+                            kinds=KINDS, tests_per_class=(1, 4),
+                            p_flat=0.25)
     plan = {}
     if rng.random() < 0.5:
         plan = {'layers': {}}
